@@ -32,6 +32,9 @@ type TOp struct {
 	Topic int    `json:"topic"`
 	ID    int    `json:"id,omitempty"`
 	Level int    `json:"level,omitempty"`
+	// Reg (restore only): the task that reuses the topic has handlers of its own: it registers them
+	// on the topic right before it restores it, and deregisters them after it has closed the topic
+	Reg bool `json:"reg,omitempty"`
 }
 
 type TopicsCase struct {
@@ -41,8 +44,8 @@ type TopicsCase struct {
 var topicPool = []string{"a", "ab", "b", "T", "main:task:alert2", "a/b"}
 var idPool = []string{"x", "xy", "m:host=h0", "y"}
 
-const ruleTopics = "rapid: histories of Collect(topic, id, level) over 2-6 topics (names that are prefixes of each other, an anonymous-topic name) and 1-4 IDs, with CloseTopic / RestoreTopic / DeleteTopic in between; every commit boundary of the topic store is a crash point (copy of the Bolt file), followed by a new service on the copy and the rest of the history; " +
-	"oracle: model of the record (topic -> id -> last non-OK level); the copy holds exactly the model's record, the new service shows exactly the copy for every topic, the final record and the final in-memory state equal those of the uninterrupted run; non-trivial = at some crash point a topic whose IDs have all recovered (empty bucket) sorts before a topic with a non-OK ID; distinct by case hash"
+const ruleTopics = "rapid: histories of Collect(topic, id, level) over 2-6 topics (names that are prefixes of each other, an anonymous-topic name) and 1-4 IDs, with CloseTopic / RestoreTopic (alone, or after a handler was registered on the closed topic, as a task with handlers of its own does) / DeleteTopic in between; every commit boundary of the topic store is a crash point (copy of the Bolt file), followed by a new service on the copy and the rest of the history; " +
+	"oracle: model of the record (topic -> id -> last non-OK level); the copy holds exactly the model's record, the new service shows exactly the copy for every topic, a topic shows exactly the record right after it was restored for reuse, the final record and the final in-memory state equal those of the uninterrupted run; non-trivial = at some crash point a topic whose IDs have all recovered (empty bucket) sorts before a topic with a non-OK ID; distinct by case hash"
 
 func genTopics(t *rapid.T) TopicsCase {
 	var c TopicsCase
@@ -65,7 +68,7 @@ func genTopics(t *rapid.T) TopicsCase {
 		}
 		if closed[tp] {
 			// a task restores its topic before it publishes to it again (alert.go runAlert)
-			c.Ops = append(c.Ops, TOp{K: "restore", Topic: tp})
+			c.Ops = append(c.Ops, TOp{K: "restore", Topic: tp, Reg: rapid.Bool().Draw(t, "reg")})
 			delete(closed, tp)
 		}
 		// recoveries are frequent: the interesting records are the ones that disappear
@@ -210,13 +213,16 @@ func readMem(env *kit.Env) record {
 
 // runTopics opens a service on the Bolt file in dir, optionally compares what it restored with
 // want, applies ops[from:] and returns the final in-memory state.
-func runTopics(c TopicsCase, dir string, from int, snapshots bool, want record, where string, cc *kit.Case) (*topicsRun, bool) {
+// model, positioned at ops[from], is advanced along with the run: what a topic shows right after
+// it was restored for reuse is compared with it.
+func runTopics(c TopicsCase, dir string, from int, snapshots bool, want record, model *topicsModel, where string, cc *kit.Case) (*topicsRun, bool) {
 	const sig = "topics/"
 	res := &topicsRun{}
 	var mu sync.Mutex
 	active := false
 	var db *bolt.DB
 	cur := -1
+	regd := map[string]*recHandler{} // handlers a task registered on its topic (see TOp.Reg)
 	env, err := kit.NewEnv(kit.EnvOpts{Alerts: true, PersistTopics: true, Dir: dir, TMName: "main",
 		StoreWrap: func(ns string, s storage.Interface) storage.Interface {
 			if ns != topicNS || !snapshots {
@@ -250,7 +256,17 @@ func runTopics(c TopicsCase, dir string, from int, snapshots bool, want record, 
 				Message: fmt.Sprintf("op %d", i), Time: time.Unix(0, t0+int64(i)*sec).UTC()}})
 		case "close":
 			err = env.Alert.CloseTopic(t)
+			if h := regd[t]; h != nil {
+				env.Alert.DeregisterAnonHandler(t, h)
+				delete(regd, t)
+			}
 		case "restore":
+			if op.Reg {
+				// the order of AlertNode.runAlert: handlers first, then the restore
+				h := &recHandler{}
+				regd[t] = h
+				env.Alert.RegisterAnonHandler(t, h)
+			}
 			err = env.Alert.RestoreTopic(t)
 		case "delete":
 			err = env.Alert.DeleteTopic(t)
@@ -261,6 +277,24 @@ func runTopics(c TopicsCase, dir string, from int, snapshots bool, want record, 
 		}
 		for k := before; k < res.commits; k++ {
 			res.commitOp = append(res.commitOp, cur)
+		}
+		model.apply(op)
+		if op.K == "restore" {
+			// the task that reuses the topic reads its IDs' states from it before it publishes
+			// anything (AlertNode.restoreEvent): the restored topic must show the record now
+			shown := record{t: {}}
+			states, err := env.Alert.EventStates(t, alert.OK)
+			if err != nil {
+				cc.Fail(sig+"reused-topic-differs-from-record", "op %d %+v: the topic cannot be read right after it was restored: %v\n%s", i, op, err, where)
+				return nil, false
+			}
+			for id, st := range states {
+				shown[t][id] = int(st.Level)
+			}
+			if wantT := (record{t: model.mem[t]}); !sameRecord(shown, wantT) {
+				cc.Fail(sig+"reused-topic-differs-from-record", "op %d %+v: right after the topic was restored it shows %s; the last non-OK levels recorded are %s\n%s", i, op, shown, wantT, where)
+				return nil, false
+			}
 		}
 	}
 	active = false
@@ -297,13 +331,20 @@ func runTopicsCase(c TopicsCase, cc *kit.Case) {
 			if op.K == "collect" {
 				s = append(s, fmt.Sprintf("%d:collect(%s,%s,%s)", i, topicPool[op.Topic], idPool[op.ID], lvlName[op.Level]))
 			} else {
-				s = append(s, fmt.Sprintf("%d:%s(%s)", i, op.K, topicPool[op.Topic]))
+				k := op.K
+				if op.Reg {
+					k = "register-handler+" + k
+				}
+				s = append(s, fmt.Sprintf("%d:%s(%s)", i, k, topicPool[op.Topic]))
 			}
 		}
 		return strings.Join(s, " ")
 	}
 	for _, op := range c.Ops {
 		cc.Label("op:" + op.K)
+		if op.Reg {
+			cc.Label("op:restore-after-registering-a-handler")
+		}
 	}
 
 	// ---- the model of the uninterrupted run: the record after every committing op
@@ -326,7 +367,7 @@ func runTopicsCase(c TopicsCase, cc *kit.Case) {
 	final := m
 
 	// ---- run 1: uninterrupted, with a copy of the file after every commit
-	r1, ok := runTopics(c, dir, 0, true, nil, "uninterrupted run\nhistory: "+hist(), cc)
+	r1, ok := runTopics(c, dir, 0, true, nil, newTopicsModel(), "uninterrupted run\nhistory: "+hist(), cc)
 	if !ok {
 		return
 	}
@@ -393,7 +434,7 @@ func runTopicsCase(c TopicsCase, cc *kit.Case) {
 		}
 		// restart: the service shows the record; then the rest of the history
 		resume := bounds[k].op + 1
-		r2, ok := runTopics(c, crashDir, resume, false, rec, where, cc)
+		r2, ok := runTopics(c, crashDir, resume, false, rec, fromDisk(rec, buckets), where, cc)
 		if !ok {
 			return
 		}
@@ -443,7 +484,9 @@ func runTopicsCase(c TopicsCase, cc *kit.Case) {
 var assumptionsTopics = []string{
 	"crash points are the commit boundaries of the topic store; Collect commits once per event (a put for a non-OK level, a delete for OK), DeleteTopic once, CloseTopic and RestoreTopic not at all",
 	"RestoreTopic is called only on a closed topic before it is published to again, as AlertNode.runAlert does; a closed topic is open again after a restart (the service loads every bucket)",
+	"a task with handlers of its own registers them on the topic (RegisterAnonHandler) right before it restores it and deregisters them right after it has closed it (the order of AlertNode.runAlert); registering a handler is no event: the restored topic shows the record all the same",
 	"an ID whose last event was OK may be listed at level OK or not at all",
+	"what a topic shows (EventStates) right after RestoreTopic is compared with the record as well: the alert node that reuses the topic reads the states of its IDs from it before it publishes anything (AlertNode.restoreEvent), so 'resumes at the last non-OK level recorded' is decided there",
 	"event times increase with the position in the history; messages, details and durations are not compared",
 }
 
